@@ -23,31 +23,52 @@ Lemma main_fast_value_gradient_eq_generic : forall (R : CR) ns m nv (W : @wts R)
   forall al, fast_grad (ns * m) nv E A b q v al = se_grad ns m nv W A b q v al.
 Proof. intros. split; [now apply fast_value_eq|intros; now apply fast_grad_eq]. Qed.
 
-Lemma main_fast_cache_is_built_from_previous_weights : forall (R : CR) m md (c : @wts R) k (st st' : @fstate R),
-  config_fast m md c k st = COk st' ->
-  config_generic md c k (f_w st) = COk (f_w st') /\
-  f_ext st' = match f_w st with Some w => Some (ext_of m w) | None => f_ext st end.
-Proof. intros R m md c k st st' H. split.
-  - pose proof (config_fast_weights m md c k st) as G. rewrite H in G.
-    destruct (config_generic md c k (f_w st)); [now subst|contradiction].
-  - now apply (config_fast_cache m md c k st st'). Qed.
+(* ---- the repaired code *)
+Lemma main_fast_agrees_all_histories : forall (R : CR) ns m nv (steps : list (@cstep R)) (st : @fstate R) (A : @mat R) (b q v : @vec R),
+  ext_matches (ns * m) m (f_w st) (f_ext st) ->
+  (forall st', run_fast m steps st = COk st' ->
+     run_generic steps (f_w st) = COk (f_w st') /\
+     fast_value (ns * m) nv (f_ext st') A b q v = se_value ns m nv (f_w st') A b q v /\
+     forall al, fast_grad (ns * m) nv (f_ext st') A b q v al = se_grad ns m nv (f_w st') A b q v al) /\
+  (run_fast m steps st = CErr -> run_generic steps (f_w st) = CErr).
+Proof. intros R ns m nv steps st A b q v H0. split.
+  - intros st' H. now apply (fast_agrees ns m nv steps st st').
+  - apply run_fast_err. Qed.
 
-Lemma main_alias_mode_ignored_refuted :
-  (forall (R : CR) (c : @wts R) k (cur : @wts R), set_weights_by_mode MAliasUnbiasedInv c k cur = COk cur) /\
-  exists (c1 : nat -> @mat Qc_OF) (A : @mat Qc_OF) (b q v : @vec Qc_OF) (W Wspec : @wts Qc_OF),
-    config_generic MAliasUnbiasedInv None (Some c1) None = COk W /\ mode_spec MAliasUnbiasedInv None (Some c1) = COk Wspec /\
-    se_value 1 2 1 W A b q v <> se_value 1 2 1 Wspec A b q v.
-Proof. split; [reflexivity|exact alias_mode_witness]. Qed.
+Lemma main_modes_effective : forall (R : CR) md (c : @wts R) k (cur : @wts R) m (st : @fstate R),
+  config_generic md c k cur = mode_spec md c k /\
+  match config_fast m md c k st, mode_spec md c k with
+  | COk st', COk w => f_w st' = w /\ f_ext st' = match w with Some w' => Some (ext_of m w') | None => None end
+  | CErr, CErr => True
+  | _, _ => False
+  end.
+Proof. intros. split; [apply modes_effective|].
+  unfold config_fast. rewrite modes_effective. destruct (mode_spec md c k) as [w|]; [|exact I].
+  split; reflexivity. Qed.
 
-Lemma main_inverse_covariance_after_fix : forall (F : OF) ns m (invs : nat -> @mat F),
-  (exists w, inv_cov_weights F true ns m invs = Some w /\
-     forall j x y, (j < ns)%nat -> w j x y = if ((x <? m - 1) && (y <? m - 1))%bool then invs j x y else c0 F) /\
-  (forall inv : @mat F, msym (m - 1) inv -> msym m (fun x y => if ((x <? m - 1) && (y <? m - 1))%bool then inv x y else c0 F)) /\
-  (forall k (inv : @mat F) (d : @vec F),
-     qfm (S k) (fun x y => if ((x <? S k - 1) && (y <? S k - 1))%bool then inv x y else c0 F) d = qfm k inv d) /\
-  (forall inv : @mat F, exists W W', place_inv F 2 inv = Some W /\ place_inv_fixed F 2 inv = Some W' /\ forall x y, W x y = W' x y).
-Proof. intros. split; [apply inv_cov_weights_fixed|]. split; [intros; now apply placed_sym|].
-  split; [intros; apply qfm_placed|apply place_inv_2]. Qed.
+Lemma main_configuration_history_independent : forall (R : CR) m md (c : @wts R) k (cur cur' : @wts R) (st st' : @fstate R),
+  config_generic md c k cur = config_generic md c k cur' /\ config_fast m md c k st = config_fast m md c k st'.
+Proof. intros. split; [apply config_generic_history_independent|apply config_fast_history_independent]. Qed.
+
+Lemma main_inverse_covariance_all_outcome_counts : forall (F : OF) ns m (invs : nat -> @mat F),
+  exists w, inv_cov_weights F ns m invs = Some w /\
+    (forall j x y, w j x y = lead_block F m (sym_half F (invs j)) x y) /\
+    wsym ns m (Some w) /\
+    (forall k (inv : @mat F) (d : @vec F), qfm (S k) (lead_block F (S k) inv) d = qfm k inv d).
+Proof. intros. destruct (inv_cov_weights_some F ns m invs) as [w [Hw Hv]]. exists w. split; [exact Hw|].
+  split; [exact Hv|]. split.
+  - intros j _ x y Hx Hy. rewrite !Hv. exact (lead_block_sym_half_sym F m (invs j) x y Hx Hy).
+  - intros. apply qfm_lead_block. Qed.
+
+Lemma main_inverse_covariance_weights_are_the_inverse_block : forall (F : OF) k (M inv : @mat F),
+  msym k M -> is_inverse F k M inv ->
+  msym k inv /\ meq k k (sym_half F inv) inv /\
+  (forall x y, (x < S k)%nat -> (y < S k)%nat -> lead_block F (S k) (sym_half F inv) x y = lead_block F (S k) inv x y).
+Proof. intros F k M inv HM Hi. split; [now apply (inverse_of_sym_is_sym F k M)|].
+  split; [now apply (sym_half_exact_inverse F k M)|].
+  intros x y _ _. unfold lead_block. replace (S k - 1)%nat with k by lia.
+  destruct (Nat.ltb_spec x k); [|reflexivity]. destruct (Nat.ltb_spec y k); [|reflexivity]. cbn.
+  now apply (sym_half_exact_inverse F k M). Qed.
 
 Lemma main_inverse_certificate : forall (F : OF) k (M inv inv' : @mat F),
   (is_inverse_b F k M inv = true -> is_inverse F k M inv) /\
@@ -55,11 +76,51 @@ Lemma main_inverse_certificate : forall (F : OF) k (M inv inv' : @mat F),
   (forall (q : @vec F) ncov n32 x y, extracted F q ncov n32 x y = extracted F q ncov n32 y x).
 Proof. intros. split; [apply is_inverse_b_spec|]. split; [apply is_inverse_unique|intros; apply extracted_sym]. Qed.
 
+Lemma main_re_modes_effective : forall (R : CR) m cm (custom cur : option (@vec R)) (st : @rstate R),
+  config_re cm custom cur = config_re_spec cm custom /\
+  r_w (config_re_fast m cm custom st) = config_re_spec cm custom /\ rstate_ok m (config_re_fast m cm custom st).
+Proof. intros. split; [reflexivity|]. destruct (config_re_fast_ok m cm custom st) as [H1 H2]. now split. Qed.
+
+Lemma rstate_ok_ew_matches (F : OF) m N (st : @rstate F) : rstate_ok m st ->
+  exists sel, re_fast_sel st = COk sel /\ ew_matches F m (r_w st) sel N.
+Proof. intros H. rewrite (re_fast_sel_ok m st H). eexists. split; [reflexivity|].
+  destruct (r_w st); cbn; [intros i _; reflexivity|exact I]. Qed.
+
+Lemma main_re_fast_agrees_all_histories : forall (F : OF) (ln : F -> F) ns m (steps : list (@rstep F)) (st : @rstate F)
+    epsq epsp (A : @mat F) (p q : @vec F),
+  rstate_ok m st -> (forall i, (i < ns * m)%nat -> kle F (c0 F) (q i)) ->
+  let st' := run_re_fast m steps st in
+  r_w st' = run_re steps (r_w st) /\
+  exists sel, re_fast_sel st' = COk sel /\
+    re_fast_value_at F ln (ns * m) sel epsq epsp p q = re_value_at F ln ns m (r_w st') epsq epsp p q /\
+    forall al, re_fast_grad_at F (ns * m) sel epsq epsp A p q al = re_grad_at F ns m (r_w st') epsq epsp A p q al.
+Proof. intros F ln ns m steps st epsq epsp A p q H0 Hq st'.
+  destruct (run_re_fast_ok m steps st H0) as [Hok Hw]. fold st' in Hok, Hw. split; [exact Hw|].
+  destruct (rstate_ok_ew_matches F m (ns * m) st' Hok) as [sel [Hs Hm]]. exists sel. split; [exact Hs|].
+  split; [now apply re_fast_value_eq|intros; now apply re_fast_grad_eq]. Qed.
+
+(* ---- the code as it was before the fixes *)
+Lemma main_fast_cache_prefix : forall (R : CR) m md (c : @wts R) k (st st' : @fstate R),
+  config_fast_prefix m md c k st = COk st' ->
+  config_generic_prefix md c k (f_w st) = COk (f_w st') /\
+  f_ext st' = match f_w st with Some w => Some (ext_of m w) | None => f_ext st end.
+Proof. intros R m md c k st st' H. split.
+  - pose proof (config_fast_prefix_weights m md c k st) as G. rewrite H in G.
+    destruct (config_generic_prefix md c k (f_w st)); [now subst|contradiction].
+  - now apply (config_fast_prefix_cache m md c k st st'). Qed.
+
+Lemma main_alias_mode_ignored_refuted :
+  (forall (R : CR) (c : @wts R) k (cur : @wts R), set_weights_by_mode_prefix MAliasUnbiasedInv c k cur = COk cur) /\
+  exists (c1 : nat -> @mat Qc_OF) (A : @mat Qc_OF) (b q v : @vec Qc_OF) (W Wspec : @wts Qc_OF),
+    config_generic_prefix MAliasUnbiasedInv None (Some c1) None = COk W /\ mode_spec MAliasUnbiasedInv None (Some c1) = COk Wspec /\
+    se_value 1 2 1 W A b q v <> se_value 1 2 1 Wspec A b q v.
+Proof. split; [reflexivity|exact alias_mode_witness]. Qed.
+
 Lemma main_relative_entropy_custom_weights_ignored_refuted :
-  (forall (R : CR) (custom cur : option (@vec R)), config_re custom cur = cur) /\
+  (forall (R : CR) cm (custom cur : option (@vec R)), config_re_prefix cm custom cur = cur) /\
   exists (custom : @vec Qc_OF) (A : @mat Qc_OF) (b q v : @vec Qc_OF),
-    config_re (Some custom) None = None /\ config_re_spec true (Some custom) = Some custom /\
-    re_grad Qc_OF 1 2 1 (config_re (Some custom) None) weps weps A b q v O
+    config_re_prefix true (Some custom) None = None /\ config_re_spec true (Some custom) = Some custom /\
+    re_grad Qc_OF 1 2 1 (config_re_prefix true (Some custom) None) weps weps A b q v O
       <> re_grad Qc_OF 1 2 1 (config_re_spec true (Some custom)) weps weps A b q v O.
 Proof. split; [reflexivity|exact re_custom_witness]. Qed.
 
